@@ -224,6 +224,12 @@ class CallMixin:
                             env[kname] = kval
             finally:
                 self.discovery = saved_disc
+        for gname, gt in con.ghost_results.items():
+            # ghost results of the callee (e.g. the enumeration it iterated): existentially quantified
+            gv = self.fresh(gt, gname)
+            if gt[0] == "list":
+                gv.origin = ("enum", z3.Function(fresh_name(f"pos_{gname}"), self.sort(gt[1]), z3.IntSort()), None)
+            env[gname] = gv
         # requires
         spec = st.fork()
         spec.frames = [dict(env)]
